@@ -145,6 +145,23 @@ SetSpinKeepsOtherS(m, which, v, m2) ==
   IN IF which = "a" THEN (Val(OccsA(m2)) = v /\ Val(OccsB(m2)) = oldB)
      ELSE (Val(OccsB(m2)) = v /\ Val(OccsA(m2)) = oldA)
 
+(* ---- un-restriction (convert_to_unrestricted, property C14) ---- *)
+Twice(a) == IF IsNone(a) THEN None ELSE Some(Val(a) \o Val(a))
+Unrestrict(m) == [kind |-> "unrestricted", norba |-> m.norba, norbb |-> m.norbb,
+                  occs |-> IF IsNone(m.occs) THEN None ELSE Some(Val(OccsA(m)) \o Val(OccsB(m))),
+                  amb |-> None, en |-> Twice(m.en), irr |-> Twice(m.irr), co |-> Twice(m.co)]
+\* outcome of convert_to_unrestricted: the same object, a new object, or a refusal
+DoUnrestrict(m) == IF m.kind = "generalized" THEN [r |-> "rejected", m |-> m]
+                   ELSE IF m.kind = "unrestricted" THEN [r |-> "same", m |-> m]
+                   ELSE [r |-> "new", m |-> Unrestrict(m)]
+\* the conversion preserves everything the property lists
+UnrestrictPreserves(m) == LET u == Unrestrict(m) IN
+  /\ OccsA(u) = OccsA(m) /\ OccsB(u) = OccsB(m) /\ Nelec(u) = Nelec(m) /\ Spinpol(u) = Spinpol(m)
+  /\ SliceA(u, u.en) = m.en /\ SliceB(u, u.en) = m.en /\ SliceA(u, u.irr) = m.irr /\ SliceB(u, u.irr) = m.irr
+  /\ SliceA(u, u.co) = m.co /\ SliceB(u, u.co) = m.co
+  /\ DoUnrestrict(u) = [r |-> "same", m |-> u]          \* idempotent
+  /\ StateInv(u)
+
 (* ---- shells ---- *)
 \* a shell case: [nang, nkind, nexp, rows, cols : Nat, ang : Seq(Nat), kinds : Seq(STRING)]
 ShapeOK(c) == c.nang = c.cols /\ c.nkind = c.cols /\ c.nexp = c.rows
